@@ -22,7 +22,7 @@ SPEC = {
                     "vlib/avm.py callsub/retsub/proto/frame_dig/frame_bury semantics"],
     "min_evaluations": {"quick": 8000, "thorough": 100000},
     "must_reach": ["agree_approve", "recursion_self", "recursion_mutual", "recursion_mutual_diffkind", "conv_scratch", "conv_frame",
-                   "byref_recursion_rejected", "calls_completed", "ladder_cases", "abi_recursion_probe_ok"],
+                   "byref_recursion_rejected", "calls_completed", "ladder_cases", "abi_recursion_probe_ok", "recipes_byref_family", "byref_forwarded"],
     "shard_timeout": {"quick": 600, "thorough": 7200},
 }
 
@@ -149,6 +149,80 @@ def mutual_family(rng):
     return {"mode": "app", "vars": [], "subs": subs, "main": main, "final": final}
 
 
+def byref_family(rng):
+    """Chains of routines that receive ScratchVars by reference and forward them (their own parameter, or a local) to the next
+    routine; every routine writes through the reference, the caller observes the writes."""
+    n = rng.choice([2, 2, 3, 4])
+    subs = []
+    for k in range(n):
+        nref = rng.choice([1, 1, 2])
+        params = []
+        order = rng.random()
+        for j in range(nref):
+            params.append({"k": "ref", "t": rng.choice(["u", "u", "b"])})
+        nval = rng.choice([0, 1, 2])
+        for j in range(nval):
+            params.insert(rng.randrange(0, len(params) + 1), {"k": rng.choice(["u", "b"])})
+        locs = [{"id": "s%d.L0" % k, "t": "u", "kind": "sv"}, {"id": "s%d.L1" % k, "t": "b", "kind": "sv"}]
+        body = [["store", "s%d.L0" % k, ["int", 50 + k]], ["store", "s%d.L1" % k, ["bytes", ("l%d" % k).encode().hex()]]]
+        subs.append({"name": "s%d" % k, "params": params, "ret": rng.choice(["n", "n", "u"]), "locals": locs, "body": body, "retexpr": None, "rec": False})
+    for k in range(n):
+        s = subs[k]
+        body = s["body"]
+        refs = [(i, p["t"]) for i, p in enumerate(s["params"]) if p["k"] == "ref"]
+        vals = [(i, p["k"]) for i, p in enumerate(s["params"]) if p["k"] != "ref"]
+
+        def write(i, t):
+            if t == "u":
+                return ["pstore", i, ["bin", "+", ["bin", "%", ["pload", i], ["int", 100000]], ["int", 10 ** k]]]
+            return ["pstore", i, ["nary", "concat", [["pload", i], ["bytes", ("%d" % k).encode().hex()]]]]
+        for i, t in refs:
+            if rng.random() < .8:
+                body.append(write(i, t))
+        if k + 1 < n:
+            for _ in range(rng.choice([1, 1, 2])):
+                callee = rng.randrange(k + 1, n)
+                cs = subs[callee]
+                args = []
+                for p in cs["params"]:
+                    if p["k"] == "ref":
+                        own = [["refparam", i] for i, t in refs if t == p["t"]]
+                        loc = [["ref", "s%d.L%d" % (k, 0 if p["t"] == "u" else 1)]]
+                        args.append(rng.choice(own * 3 + loc) if own else loc[0])
+                    elif p["k"] == "u":
+                        args.append(["int", rng.randrange(1, 9)])
+                    else:
+                        args.append(["bytes", "7a"])
+                if cs["ret"] == "n":
+                    body.append(["callstmt", callee, args])
+                else:
+                    body.append(["store", "s%d.L0" % k, ["bin", "+", ["load", "s%d.L0" % k], ["call", callee, args]]])
+                for i, t in refs:
+                    if rng.random() < .5:
+                        body.append(write(i, t))
+        obs = [["itob", ["load", "s%d.L0" % k]], ["load", "s%d.L1" % k]] + [["itob", ["pload", i]] if t == "u" else ["pload", i] for i, t in refs]
+        body.append(["log", ["nary", "concat", [["bytes", ("s%d:" % k).encode().hex()]] + obs]])
+        if s["ret"] == "u":
+            s["retexpr"] = ["bin", "+", ["load", "s%d.L0" % k], ["int", k]]
+    vars_ = [{"id": "gu", "t": "u", "kind": "sv", "slot": rng.choice([None, None, 10, 200])}, {"id": "gb", "t": "b", "kind": "sv", "slot": None},
+             {"id": "gu2", "t": "u", "kind": "sv", "slot": None}]
+    main = [["store", "gu", ["btoi", ["txna", "ApplicationArgs", 0]]], ["store", "gb", ["bytes", "67"]], ["store", "gu2", ["int", 7]]]
+    a0 = []
+    for p in subs[0]["params"]:
+        if p["k"] == "ref":
+            a0.append(["ref", rng.choice(["gu", "gu2"]) if p["t"] == "u" else "gb"])
+        elif p["k"] == "u":
+            a0.append(["int", 3])
+        else:
+            a0.append(["bytes", "61"])
+    if subs[0]["ret"] == "n":
+        main.append(["callstmt", 0, a0])
+    else:
+        main.append(["log", ["itob", ["call", 0, a0]]])
+    main.append(["log", ["nary", "concat", [["itob", ["load", "gu"]], ["load", "gb"], ["itob", ["load", "gu2"]]]]])
+    return {"mode": "app", "vars": vars_, "subs": subs, "main": main, "final": ["int", 1]}
+
+
 def nonlocal_witness(kind):
     """Known finding: Return reached inside a subroutine while operands of an enclosing expression are pending."""
     sub = {"name": "w", "params": [{"k": "u"}], "ret": "u", "locals": [], "rec": False, "body": [],
@@ -242,6 +316,8 @@ def check_recipe(acc, recipe, version, optsets, ctxs, origin):
                                                            % (ev[0], ev[1], ev[3], ev[5], ev[2], ev[4], "frame" if frame else "scratch")] += 1
             if ref.maxdepth >= 2:
                 acc.nontrivial.add(key)
+            if origin == "byref_family" and not diffs and "refparam" in str(recipe["subs"]):
+                acc.counters["byref_forwarded"] += 1
     if len(acc.samples) < 3 and refs and refs[0] is not None and refs[0].recursion:
         acc.sample({"origin": origin, "version": version, "options": optsets, "routines": [(s["name"], s["ret"], len(s["params"]), len(s.get("locals", []))) for s in recipe["subs"]],
                     "reference_verdict": refs[0].status, "recursion_events": sorted(map(str, refs[0].recursion))[:4]})
@@ -335,9 +411,13 @@ def run_shard(shard):
                 continue
             origin = "random"
             version = max(version, recipes.min_version(recipe))
-        elif r < .9:
+        elif r < .8:
             recipe = mutual_family(rng)
             origin = "mutual_family"
+            version = max(version, 5)
+        elif r < .9:
+            recipe = byref_family(rng)
+            origin = "byref_family"
             version = max(version, 5)
         else:
             n = rng.randrange(0, 13)
